@@ -49,7 +49,21 @@ def check(rep, ex: Explorer, cls: str, strict=True, extended=True, keys=False, f
         rep.check(base_ok, "C01.negation", site, f"{mode}: base kept", "the tested base contains every conditional of the belief base unchanged",
                   extracted=f"{len(each)} guarded group(s)", required="all conditionals of the base", function=site)
         want = ("cond", F.canon(A(QUERY)), F.canon(("not", B(QUERY))))
-        ok = len(ents) == 1 and ents[0][1] == want
+        # facts the path decided about a side of the query being one of the constants: both the extracted and the
+        # required conditional are read under them (a special case for a constant side must still add (¬B|A))
+        fixed = {}
+        isc = {k[2][1]: v for k, v in p.decisions if k[:2] == ("fnode", "is_bool_constant") and isinstance(k[2], tuple) and k[2][:1] == ("f",)}
+        cvs = {k[2][1]: v for k, v in p.decisions if k[:2] == ("fnode", "constant_value") and isinstance(k[2], tuple) and k[2][:1] == ("f",)}
+        for atom, yes in isc.items():
+            if yes and atom in cvs:
+                fixed[atom] = cvs[atom]
+        if any(yes and atom not in cvs for atom, yes in isc.items()):
+            raise AnalysisError(f"{site}: a side of the query is treated as a constant whose value the path never looks at")
+
+        def under(cd):
+            return ("cond", F.canon_restrict(cd[1], fixed), F.canon_restrict(cd[2], fixed)) if fixed and isinstance(cd, tuple) and cd[:1] == ("cond",) else cd
+
+        ok = len(ents) == 1 and under(ents[0][1]) == under(want)
         got = "; ".join(f"key {k}: {_show_cond(v)}" for k, v in ents) or "none"
         rep.check(ok, "C01.negation", site, f"{mode}: negated query", "exactly the conditional (¬B|A) is added to the base",
                   extracted=got, required="antecedent ≡ A, consequent ≡ ¬B", function=site)
@@ -87,7 +101,7 @@ def check(rep, ex: Explorer, cls: str, strict=True, extended=True, keys=False, f
                     raise AnalysisError(f"{site}: strict answer does not depend on the partition verdict")
                 # (whether the base is empty may be looked at - e.g. to choose a key -; the row check below still demands
                 # the same answer for the same partition verdict on either side of it)
-                extra = [k for k in env if k not in (pf, ("truthy", "weakly"), ("empty", ("keys", "D")))]
+                extra = [k for k in env if k not in (pf, ("truthy", "weakly"), ("empty", ("keys", "D"))) and not (k[0] == "fnode" and k[1] in ("is_bool_constant", "constant_value"))]
                 if extra:
                     raise AnalysisError(f"{site}: strict answer depends on {extra[0]!r}")
                 rep.check(val == env[pf], "C01.polarity", site, f"strict: no partition={env[pf]}", "True exactly when base ∪ {(¬B|A)} admits no tolerance partition",
